@@ -154,8 +154,8 @@ func jsonAddKeyElements(s Entry, dict map[string]any) {
 	// retrieve the parent schema, we need to extract the key names
 	// values are the tree level names
 	parentSchema, levelsUp := s.GetFirstAncestorWithSchema()
-	// from the parent we get the keys as slice
-	schemaKeys := parentSchema.GetSchemaKeys()
+	// from the parent we get the keys as slice, in the order of the key levels of the tree
+	schemaKeys := keyLevelNames(parentSchema.GetSchemaKeys())
 	var treeElem Entry = s
 	// the keys do match the levels up in the tree in reverse order
 	// hence we init i with levelUp and count down
